@@ -26,7 +26,7 @@ import (
 type osOutcome struct {
 	Excl bool // opened with O_EXCL
 	Call    string // os.Stat, os.Rename, ...
-	Role    string // target | destination | member | other
+	Role    string // target | destination | member[.member|2] | destination.member[.member|2] | other
 	Outcome string // ok | file | dir | ENOENT | ...
 	Pos     string
 	Role2   string // os.Rename: role of the new path
@@ -72,7 +72,19 @@ func pathRole(v Val) string {
 	k := keyOf(v)
 	switch {
 	case strings.Contains(k, "member(") || strings.Contains(k, "member2("):
-		return "member"
+		// which entry below the walked root (a member, a member of that
+		// member, a second member), and on which side: the entry itself
+		// (source) or its counterpart below the destination
+		which := "member"
+		if strings.Contains(k, "member2(") {
+			which = "member2"
+		} else if strings.Contains(k, "member(member(") {
+			which = "member.member"
+		}
+		if strings.Contains(k, "url(header:\"Destination\")") || strings.Contains(k, "destpath") {
+			return "destination." + which
+		}
+		return which
 	case strings.Contains(k, "url(header:\"Destination\")") || strings.Contains(k, "destpath"):
 		return "destination"
 	case strings.Contains(k, "r.URL.Path") || strings.Contains(k, "reqpath"):
@@ -700,7 +712,7 @@ func requiredStatus(method string, f *osOutcome, run *fsRun) (want []string, why
 			}
 		}
 	case "os.Create", "os.OpenFile":
-		if method == "PUT" || (method == "COPY" && f.Role == "destination") {
+		if method == "PUT" || (method == "COPY" && strings.HasPrefix(f.Role, "destination")) {
 			switch e {
 			case "EISDIR":
 				if method == "PUT" {
@@ -1083,6 +1095,12 @@ func (run *fsRun) replay() (changes []string, feasible bool, faults int, forced 
 			return s
 		}
 		s := &st{init: "unknown", cur: "unknown"}
+		// an entry below a directory this request has just made is not there yet
+		if i := strings.LastIndex(role, "."); i > 0 {
+			if ps, ok := states[role[:i]]; ok && (ps.cur == "new-dir" || ps.cur == "replaced-by-new-dir") {
+				s.init, s.cur = "absent", "absent"
+			}
+		}
 		states[role] = s
 		order = append(order, role)
 		return s
@@ -1337,7 +1355,30 @@ func c02Traces(c *Ctx, r *RuleResult, runs []*fsRun, faultFreeOnly bool) {
 		if faults == 0 && trigger.Call != "no OS fault" {
 			when += " (no fault: " + trigger.Outcome + ")"
 		}
-		k := fmt.Sprintf("%s|%s|%s[%s]%s", run.Method, strings.Join(changes, ","), trigger.Call, trigger.Role, when)
+		// entries created below a destination this request has itself made
+		// are one thing — what a copy that breaks off leaves behind — however
+		// deep the walk got; any other change of a member keeps its own name
+		var kc []string
+		partial := false
+		for _, ch := range changes {
+			if strings.HasPrefix(ch, "destination.") && (strings.HasSuffix(ch, ":absent->new-file") || strings.HasSuffix(ch, ":absent->new-dir")) {
+				if !partial {
+					partial = true
+					kc = append(kc, "partial-copy-below")
+				}
+				continue
+			}
+			kc = append(kc, ch)
+		}
+		trole := trigger.Role
+		if strings.Contains(trole, "member") {
+			if strings.HasPrefix(trole, "destination.") {
+				trole = "destination member"
+			} else {
+				trole = "source member"
+			}
+		}
+		k := fmt.Sprintf("%s|%s|%s[%s]%s", run.Method, strings.Join(kc, ","), trigger.Call, trole, when)
 		if seen[k] {
 			continue
 		}
